@@ -2,21 +2,35 @@
 
 case = (kind, payload):
   ('json',  tree)   jsonValue() of the tree and _parse_datatype_json_string(tree.json())
-  ('parse', json)   _parse_datatype_json_value on a (possibly damaged) JSON value
+  ('parse', json, expected|None, label)      _parse_datatype_json_value on a (possibly damaged) JSON value
+  ('infer', rows, label)                     schema_utils.infer_schema_from_list(rows)
+  ('merge', tree_a, tree_b)                  _merge_type(a, b)
+  ('verify', tree, nullable, value, label)   _make_type_verifier(tree, nullable)(value)
+  ('create', rows, label, tree)              SparkSession.createDataFrame(rows).collect() (schema inferred)
+  ('create_s', schema, rows, label)          SparkSession.createDataFrame(rows, schema).collect()
+  ('row', value)                             pickle round trip, asDict(), asDict(True) of a Row
 
 Encodings shared with coq/Run/C19_run.v:
   type tree  'string' | ('decimal', p, s) | ('array', elem, containsNull) | ('map', key, value, valueContainsNull)
              | ('struct', [(name, type, nullable, metadata)])
   JSON       None/bool/int/float/str, list, object -> ([(key, value), ...],)   (a 1-tuple holding the item list)
+  values     None/bool/int/float/str, list, ('bytearray', b) ('bytes', b) ('Decimal', str) ('date', ordinal)
+             ('datetime', microseconds, None | utc offset seconds) ('tuple', [..]) ('dict', [(k, v)]) ('Row', [names], [values])
 """
+import datetime
+import decimal
 import os
+import pickle
 import time
 
 os.environ['TZ'] = 'UTC'
 time.tzset()
 
 from common.coqlit import Err  # noqa: E402
+from pysparkling import Context  # noqa: E402
 from pysparkling.sql import types as T  # noqa: E402
+from pysparkling.sql.schema_utils import infer_schema_from_list  # noqa: E402
+from pysparkling.sql.session import SparkSession  # noqa: E402
 
 ID = 'C19'
 KERNELS = ['Gen/TypeTables.v: type_names', 'Gen/TypeTables.v: decimal', 'Gen/TypeTables.v: type_mappings',
@@ -82,6 +96,85 @@ def enc_type(t):
     raise TypeError(f'cannot encode type {t!r}')
 
 
+EPOCH = datetime.datetime(1970, 1, 1)
+EPOCH_UTC = datetime.datetime(1970, 1, 1, tzinfo=datetime.timezone.utc)
+US = datetime.timedelta(microseconds=1)
+
+
+def enc_val(v):
+    if v is None or isinstance(v, (bool, int, float, str)):
+        return v
+    if isinstance(v, bytearray):
+        return ('bytearray', bytes(v))
+    if isinstance(v, bytes):
+        return ('bytes', v)
+    if isinstance(v, decimal.Decimal):
+        return ('Decimal', str(v))
+    if isinstance(v, datetime.datetime):
+        if v.tzinfo is None:
+            return ('datetime', (v - EPOCH) // US, None)
+        off = v.utcoffset()
+        return ('datetime', (v - EPOCH_UTC) // US, off.days * 86400 + off.seconds)
+    if isinstance(v, datetime.date):
+        return ('date', v.toordinal())
+    if isinstance(v, T.Row):
+        if not hasattr(v, '__fields__'):
+            raise TypeError('Row class')
+        return ('Row', list(v.__fields__), [enc_val(x) for x in v])
+    if isinstance(v, tuple):
+        return ('tuple', [enc_val(x) for x in v])
+    if isinstance(v, list):
+        return [enc_val(x) for x in v]
+    if isinstance(v, dict):
+        return ('dict', [(enc_val(k), enc_val(x)) for k, x in v.items()])
+    raise TypeError(f'cannot encode value {v!r}')
+
+
+def dec_val(e):
+    if isinstance(e, list):
+        return [dec_val(x) for x in e]
+    if isinstance(e, tuple):
+        tag = e[0]
+        if tag == 'bytearray':
+            return bytearray(e[1])
+        if tag == 'bytes':
+            return bytes(e[1])
+        if tag == 'Decimal':
+            return decimal.Decimal(e[1])
+        if tag == 'date':
+            return datetime.date.fromordinal(e[1])
+        if tag == 'datetime':
+            if e[2] is None:
+                return EPOCH + e[1] * US
+            return (EPOCH_UTC + e[1] * US).astimezone(datetime.timezone(datetime.timedelta(seconds=e[2])))
+        if tag == 'tuple':
+            return tuple(dec_val(x) for x in e[1])
+        if tag == 'dict':
+            return {dec_val(k): dec_val(x) for k, x in e[1]}
+        if tag == 'Row':
+            return T.create_row(e[1], [dec_val(x) for x in e[2]])
+        raise ValueError(e)
+    return e
+
+
+def same(a, b):
+    """Structural identity of two Python values as the property means "equal": same types, same field names,
+    same contents; floats bit-for-bit except that any NaN equals any NaN; aware datetimes by instant."""
+    if isinstance(a, float) and isinstance(b, float):
+        return a.hex() == b.hex() or (a != a and b != b)
+    if isinstance(a, T.Row) or isinstance(b, T.Row):
+        return (isinstance(a, T.Row) and isinstance(b, T.Row)
+                and tuple(getattr(a, '__fields__', ())) == tuple(getattr(b, '__fields__', ()))
+                and len(a) == len(b) and all(same(x, y) for x, y in zip(a, b)))
+    if type(a) is not type(b):
+        return False
+    if isinstance(a, (list, tuple)):
+        return len(a) == len(b) and all(same(x, y) for x, y in zip(a, b))
+    if isinstance(a, dict):
+        return len(a) == len(b) and all(k in b and same(v, b[k]) for k, v in a.items())
+    return a == b
+
+
 def exc(e):
     return Err(type(e).__name__)
 
@@ -102,10 +195,85 @@ def impl(case):
             return enc_type(T._parse_datatype_json_value(dec_json(case[1])))
         except Exception as e:  # pylint: disable=broad-except
             return exc(e)
+    if kind == 'infer':
+        try:
+            return enc_type(infer_schema_from_list([dec_val(r) for r in case[1]]))
+        except Exception as e:  # pylint: disable=broad-except
+            return exc(e)
+    if kind == 'merge':
+        try:
+            return enc_type(T._merge_type(build_type(case[1]), build_type(case[2])))
+        except Exception as e:  # pylint: disable=broad-except
+            return exc(e)
+    if kind == 'verify':
+        try:
+            T._make_type_verifier(build_type(case[1]), case[2])(dec_val(case[3]))
+            return None
+        except Exception as e:  # pylint: disable=broad-except
+            return exc(e)
+    if kind == 'create':
+        try:
+            df = SparkSession(Context()).createDataFrame([dec_val(r) for r in case[1]])
+            out = df.collect()
+            return (enc_type(df.schema), [enc_val(r) for r in out])
+        except Exception as e:  # pylint: disable=broad-except
+            return exc(e)
+    if kind == 'create_s':
+        try:
+            df = SparkSession(Context()).createDataFrame([dec_val(r) for r in case[2]], build_type(case[1]))
+            return [enc_val(r) for r in df.collect()]
+        except Exception as e:  # pylint: disable=broad-except
+            return exc(e)
+    if kind == 'row':
+        r = dec_val(case[1])
+        try:
+            a = enc_val(pickle.loads(pickle.dumps(r)))
+        except Exception as e:  # pylint: disable=broad-except
+            a = exc(e)
+        try:
+            b = enc_val(r.asDict())
+        except Exception as e:  # pylint: disable=broad-except
+            b = exc(e)
+        return (a, b, enc_val(r.asDict(True)))
     raise ValueError(kind)
 
 
 # ------------------------------------------------------------------ oracle (implementation only)
+PY_ACCEPTS = {   # what Spark documents as the Python type of each SQL type (independent of _acceptable_types)
+    'boolean': (bool,), 'byte': (int,), 'short': (int,), 'integer': (int,), 'long': (int,),
+    'float': (float,), 'double': (float,), 'decimal': (decimal.Decimal,), 'binary': (bytearray,),
+    'date': (datetime.date,), 'timestamp': (datetime.datetime,), 'array': (list, tuple), 'map': (dict,),
+    'struct': (tuple, list, dict),
+}
+INT_RANGE = {'byte': 8, 'short': 16, 'integer': 32, 'long': 64}
+
+
+def has_null_container_of_struct(tree, value):
+    """A None where the (inferred) type is an array/map whose element type contains a struct."""
+    def contains_struct(t):
+        if isinstance(t, str) or t[0] == 'decimal':
+            return False
+        if t[0] == 'struct':
+            return True
+        return any(contains_struct(x) for x in t[1:] if isinstance(x, (str, tuple)))
+
+    def walk(t, v):
+        if isinstance(t, str) or t[0] == 'decimal':
+            return False
+        if t[0] == 'array':
+            if v is None:
+                return contains_struct(t[1])
+            return any(walk(t[1], x) for x in v)
+        if t[0] == 'map':
+            if v is None:
+                return contains_struct(t[1]) or contains_struct(t[2])
+            return any(walk(t[1], k) or walk(t[2], x) for k, x in v.items())
+        if v is None:
+            return False
+        return any(walk(f[1], x) for f, x in zip(t[1], v))
+    return walk(tree, value)
+
+
 def oracle(case, result):
     kind = case[0]
     if kind == 'json':
@@ -125,7 +293,102 @@ def oracle(case, result):
         if want is not None and result != want:
             return ('parse:decimal-string', f'{case[1]!r} parsed to {result!r}, expected {want!r}')
         return None
+    if kind == 'infer':
+        rows = [dec_val(r) for r in case[1]]
+        if isinstance(result, Err):
+            if case[2] == 'full':
+                return (f'infer:raises:{result.name}', f'rows whose first row has no null: {rows!r}')
+            return None
+        schema = build_type(result)
+        try:
+            verifier = T._make_type_verifier(schema)
+            for r in rows:
+                verifier(r)
+        except Exception as e:  # pylint: disable=broad-except
+            return (f'infer:inferred-schema-rejects-row:{type(e).__name__}', f'{schema!r} on {rows!r}: {e}')
+        return None
+    if kind == 'create':
+        rows = [dec_val(r) for r in case[1]]
+        if isinstance(result, Err):
+            if result.name in ('TypeError', 'AttributeError') and any(
+                    has_null_container_of_struct(case[3], r) for r in rows):
+                return ('create:null-in-array-or-map-of-struct', f'createDataFrame({rows!r}) raises {result.name}')
+            if case[2] != 'full' and result.name == 'ValueError':
+                return None         # some type could not be determined from the rows
+            return (f'create:raises:{result.name}', repr(rows))
+        out = [dec_val(r) for r in result[1]]
+        if len(out) != len(rows) or not all(same(a, b) and a == b for a, b in zip(out, rows)):
+            return ('create:collect-differs', f'{rows!r} came back as {out!r}')
+        return None
+    if kind == 'create_s':
+        label = case[3]
+        rows = [dec_val(r) for r in case[2]]
+        if label == 'valid':
+            if isinstance(result, Err):
+                return (f'create_s:valid-rows-rejected:{result.name}', f'{case[1]!r} {rows!r}')
+            out = [dec_val(r) for r in result]
+            names = tuple(f[0] for f in case[1][1])
+            for a, b in zip(out, rows):
+                if isinstance(b, T.Row):
+                    ok = same(a, b) and a == b
+                else:
+                    ok = isinstance(b, tuple) and tuple(a.__fields__) == names and same(tuple(a), b)
+                if not ok:
+                    return ('create_s:collect-differs', f'{rows!r} came back as {out!r}')
+            if len(out) != len(rows):
+                return ('create_s:collect-differs', f'{rows!r} came back as {out!r}')
+            return None
+        return judge_rejection(label, result, f'createDataFrame({rows!r}, {case[1]!r})')
+    if kind == 'verify':
+        label = case[4]
+        if label == 'valid':
+            if result is not None:
+                return (f'verify:valid-value-rejected:{getattr(result, "name", result)}', f'{case[1]!r} {case[3]!r}')
+            return None
+        return judge_rejection(label, result, f'verify({case[1]!r}, nullable={case[2]})({dec_val(case[3])!r})')
+    if kind == 'row':
+        r = dec_val(case[1])
+        for proto in (2, pickle.HIGHEST_PROTOCOL):
+            try:
+                back = pickle.loads(pickle.dumps(r, proto))
+            except Exception as e:  # pylint: disable=broad-except
+                return (f'row:pickle-raises:{type(e).__name__}', repr(r))
+            if not same(back, r) or back != r:
+                return ('row:pickle-differs', f'{r!r} came back as {back!r}')
+        d = r.asDict()
+        names = list(r.__fields__)
+        if len(set(names)) == len(names) == len(r):
+            if list(d.keys()) != names or not all(same(d[n], v) for n, v in zip(names, r)):
+                return ('row:asDict-differs', f'{r!r}.asDict() = {d!r}')
+            dr = r.asDict(True)
+            if list(dr.keys()) != names or not all(same(dr[n], plain(v)) for n, v in zip(names, r)):
+                return ('row:asDict-recursive-differs', f'{r!r}.asDict(True) = {dr!r}')
+        return None
     return None
+
+
+def plain(v):
+    """Independent statement of asDict(recursive=True): nested Rows (also inside lists and dict values) as dicts."""
+    if isinstance(v, T.Row):
+        return {n: plain(x) for n, x in zip(v.__fields__, v)}
+    if isinstance(v, list):
+        return [plain(x) for x in v]
+    if isinstance(v, dict):
+        return {k: plain(x) for k, x in v.items()}
+    return v
+
+
+def judge_rejection(label, result, what):
+    """label = '<kind>:<type name at the damaged position>'; the property demands a rejection for the kinds
+    wrong-type, out-of-range and null; other kinds (arity, missing-field, ...) are correspondence-only."""
+    k, _, tname = label.partition(':')
+    if k not in ('wrong-type', 'out-of-range', 'null'):
+        return None
+    if isinstance(result, Err) and result.name in ('TypeError', 'ValueError'):
+        return None
+    if isinstance(result, Err):
+        return (f'verify:{k}-raises-{result.name}:{tname}', what)
+    return (f'verify:{k}-accepted:{tname}', f'{what} was accepted')
 
 
 def top(e):
@@ -137,6 +400,12 @@ def kind(case):
         return f'json/{top(case[1])}/d{depth(case[1])}'
     if case[0] == 'parse':
         return 'parse/' + (case[3] if len(case) > 3 else 'x')
+    if case[0] in ('infer', 'create'):
+        return f'{case[0]}/{case[2]}'
+    if case[0] == 'create_s':
+        return f'create_s/{case[3].partition(":")[0]}'
+    if case[0] == 'verify':
+        return f'verify/{case[4].partition(":")[0]}'
     return case[0]
 
 
@@ -153,6 +422,8 @@ def depth(e):
 def nontrivial(case, result):
     if case[0] == 'json':
         return depth(case[1]) >= 1 or not isinstance(case[1], str)
+    if case[0] in ('infer', 'create'):
+        return len(case[1]) > 0
     return True
 
 
@@ -350,6 +621,301 @@ def decimal_string_cases(rng, n):
     return out
 
 
+# ---- values generated from a type tree
+STRS = ['', 'a', 'xyz', 'hello world', 'é', '日本', 'NULL', '0', ' ']
+FLOATS = [0.0, -0.0, 1.5, -2.25, 1e300, 5e-324, float('inf'), float('-inf'), float('nan'), 3.0]
+KEYABLE = ('string', 'boolean', 'byte', 'short', 'integer', 'long', 'float', 'double', 'date', 'timestamp')
+
+
+def gen_leaf(rng, name, key=False):
+    if name == 'string':
+        return rng.choice(STRS) if rng.random() < 0.7 else ''.join(rng.choice('abcXYZ 09_é') for _ in range(rng.randint(1, 6)))
+    if name == 'binary':
+        return bytearray(rng.getrandbits(8) for _ in range(rng.randint(0, 4)))
+    if name == 'boolean':
+        return rng.random() < 0.5
+    if name in ('float', 'double'):
+        x = rng.choice(FLOATS) if rng.random() < 0.5 else rng.uniform(-1e6, 1e6)
+        return 1.25 if key and x != x else x
+    if name in INT_RANGE:
+        w = INT_RANGE[name]
+        lo, hi = -(1 << (w - 1)), (1 << (w - 1)) - 1
+        return rng.choice([lo, hi, 0, 1, -1, rng.randint(lo, hi)])
+    if name == 'date':
+        return datetime.date.fromordinal(rng.choice([1, 3652059, 719163, rng.randint(1, 3652059)]))
+    if name == 'timestamp':
+        if rng.random() < 0.6:
+            return EPOCH + rng.choice([0, 1, -1, rng.randint(-10 ** 15, 4 * 10 ** 15)]) * US
+        off = rng.choice([0, 3600, -5 * 3600, 19800, -12 * 3600, 14 * 3600, 60])
+        return (EPOCH_UTC + rng.randint(10 ** 13, 4 * 10 ** 15) * US).astimezone(
+            datetime.timezone(datetime.timedelta(seconds=off)))
+    if name == 'null':
+        return None
+    raise ValueError(name)
+
+
+def gen_decimal(rng):
+    return decimal.Decimal(rng.choice(['0', '1.5', '-2.50', '1E+3', '123456789.123456789', '-0', '0.000001']))
+
+
+def gen_value(rng, t, nullable=True, pnull=0.0, minlen=0, respect=True, struct_as='Row', key=False):
+    if t == 'null':
+        return None
+    if nullable and pnull and rng.random() < pnull:
+        return None
+    if isinstance(t, str):
+        return gen_leaf(rng, t, key)
+    if t[0] == 'decimal':
+        return gen_decimal(rng)
+    if t[0] == 'array':
+        return [gen_value(rng, t[1], t[2] or not respect, pnull, minlen, respect, struct_as)
+                for _ in range(rng.randint(minlen, 3))]
+    if t[0] == 'map':
+        d = {}
+        for _ in range(rng.randint(minlen, 3)):
+            k = gen_value(rng, t[1], False, 0.0, minlen, respect, 'Row', key=True)
+            d[k] = gen_value(rng, t[2], t[3] or not respect, pnull, minlen, respect, struct_as)
+        return d
+    names = [f[0] for f in t[1]]
+    vals = [gen_value(rng, f[1], f[2] or not respect, pnull, minlen, respect, struct_as) for f in t[1]]
+    if struct_as == 'tuple':
+        return tuple(vals)
+    if struct_as == 'dict':
+        return dict(zip(names, vals))
+    return T.create_row(names, vals)
+
+
+def valuable(t, key=False):
+    """Trees from which Python values can be generated: map keys must be hashable atoms."""
+    if isinstance(t, str):
+        return t in KEYABLE if key else True
+    if t[0] == 'decimal':
+        return True
+    if key:
+        return False
+    if t[0] == 'array':
+        return valuable(t[1])
+    if t[0] == 'map':
+        return valuable(t[1], True) and valuable(t[2])
+    names = [f[0] for f in t[1]]
+    return len(set(names)) == len(names) and all(valuable(f[1]) for f in t[1])
+
+
+def null_ok(t, nullable=True):
+    """Every NullType leaf sits at a nullable position (otherwise no value is valid for the tree)."""
+    if isinstance(t, str):
+        return t != 'null' or nullable
+    if t[0] == 'decimal':
+        return True
+    if t[0] == 'array':
+        return null_ok(t[1], t[2])
+    if t[0] == 'map':
+        return null_ok(t[1], False) and null_ok(t[2], t[3])
+    return all(null_ok(f[1], f[2]) for f in t[1])
+
+
+def has_leaf(t, name):
+    if isinstance(t, str):
+        return t == name
+    if t[0] == 'decimal':
+        return False
+    if t[0] == 'struct':
+        return any(has_leaf(f[1], name) for f in t[1])
+    return any(has_leaf(x, name) for x in t[1:] if isinstance(x, (str, tuple)))
+
+
+def replace_key(d, k, nk):
+    return {(nk if kk is k else kk): x for kk, x in d.items()}
+
+
+def positions(t, v, nullable, respect=True, is_key=False):
+    """(rebuild, type, nullable, value, is_key) for every position of the value v of type t."""
+    yield (lambda nv: nv), t, nullable, v, is_key
+    if v is None or isinstance(t, str) or t[0] == 'decimal':
+        return
+    if t[0] == 'array':
+        for i, x in enumerate(v):
+            for rb, tt, nn, xx, kk in positions(t[1], x, t[2] or not respect, respect):
+                yield (lambda nv, i=i, rb=rb: v[:i] + [rb(nv)] + v[i + 1:]), tt, nn, xx, kk
+    elif t[0] == 'map':
+        for k, x in list(v.items()):
+            yield (lambda nv, k=k: replace_key(v, k, nv)), t[1], False, k, True
+            for rb, tt, nn, xx, kk in positions(t[2], x, t[3] or not respect, respect):
+                yield (lambda nv, k=k, rb=rb: {kk2: (rb(nv) if kk2 is k else x2) for kk2, x2 in v.items()}), tt, nn, xx, kk
+    elif isinstance(v, T.Row):
+        vals = list(tuple(v))
+        for i, (f, x) in enumerate(zip(t[1], vals)):
+            for rb, tt, nn, xx, kk in positions(f[1], x, f[2] or not respect, respect):
+                yield (lambda nv, i=i, rb=rb: T.create_row(v.__fields__, vals[:i] + [rb(nv)] + vals[i + 1:])), tt, nn, xx, kk
+
+
+def tname(t):
+    return t if isinstance(t, str) else t[0]
+
+
+def wrong_pool():
+    return [True, 7, -3, 2.5, 'txt', bytearray(b'x'), b'raw', decimal.Decimal('1.5'), datetime.date(2020, 1, 2),
+            datetime.datetime(2020, 1, 2, 3, 4, 5), [1], (1, 'a'), {'k': 1}, T.create_row(['a'], [1])]
+
+
+def hashable(v):
+    try:
+        hash(v)
+        return True
+    except TypeError:
+        return False
+
+
+def corruptions(rng, t, v, nullable, respect=True):
+    """Single-position damages of a valid value: (label, damaged value)."""
+    out = []
+    for rb, tt, nn, x, is_key in positions(t, v, nullable, respect):
+        name = tname(tt)
+        if not nn and x is not None:
+            out.append((f'null:{"map-key" if is_key else name}', rb(None)))
+        if x is None:
+            continue
+        if name in PY_ACCEPTS:
+            wrong = [w for w in wrong_pool() if not isinstance(w, PY_ACCEPTS[name]) and (not is_key or hashable(w))]
+            if wrong:
+                out.append((f'wrong-type:{name}', rb(rng.choice(wrong))))
+        if name in INT_RANGE:
+            w = INT_RANGE[name]
+            bad = rng.choice([1 << (w - 1), -(1 << (w - 1)) - 1, (1 << w) + 5, -(1 << 70)])
+            out.append((f'out-of-range:{name}', rb(bad)))
+        if name == 'struct' and isinstance(x, T.Row) and not is_key:
+            vals = list(tuple(x))
+            out.append(('arity:struct', rb(tuple(vals + [1]))))
+            if vals:
+                out.append(('arity:struct', rb(tuple(vals[:-1]))))
+                out.append(('missing-field:struct', rb(T.create_row(['zz%d' % i for i in range(len(vals))], vals))))
+                out.append(('extra-field:struct', rb(T.create_row(list(x.__fields__) + ['extra'], vals + [None]))))
+            out.append(('as-tuple:struct', rb(tuple(vals))))
+            out.append(('as-dict:struct', rb(dict(zip(x.__fields__, vals)))))
+        if name == 'array' and x:
+            out.append(('as-tuple:array', rb(tuple(x))))
+    return out
+
+
+def erase(rng, t, p=0.3):
+    """A tree below t in the order 'NullType matches anything' (what inference yields when values are missing)."""
+    if rng.random() < p:
+        return 'null'
+    if isinstance(t, str) or t[0] == 'decimal':
+        return t
+    if t[0] == 'array':
+        return ('array', erase(rng, t[1], p), t[2])
+    if t[0] == 'map':
+        return ('map', erase(rng, t[1], p), erase(rng, t[2], p), t[3])
+    return ('struct', [(f[0], erase(rng, f[1], p), f[2], f[3]) for f in t[1]])
+
+
+def row_tree(rng, e, nullable=None):
+    return ('struct', [('c', e, rng.random() < 0.6 if nullable is None else nullable, ([],))])
+
+
+def rand_row_tree(rng, d, with_null=False):
+    while True:
+        n = rng.randint(1, 3)
+        t = ('struct', [(nm, rand_tree(rng, d - 1, struct_bias=0.35), rng.random() < 0.6, ([],))
+                        for nm in rng.sample(['a', 'b', 'c', 'x', 'some_col', 'é'], n)])
+        if valuable(t) and (with_null or not has_leaf(t, 'null')):
+            return t
+
+
+def enc_rows(rows):
+    return [enc_val(r) for r in rows]
+
+
+def rows_cases(rng, t, quick):
+    """The row-level cases derived from one top-level struct tree t."""
+    cases = []
+    inferable = not has_leaf(t, 'null')
+    # -- schema inferred: a full first row, then one row per nullable position with a null exactly there
+    if inferable:
+        full = gen_value(rng, t, False, 0.0, 1, respect=False)
+        variants = [rb(None) for rb, _, nn, x, is_key in list(positions(t, full, False, respect=False))[1:]
+                    if nn and x is not None and not is_key]
+        if len(variants) > 10:
+            variants = rng.sample(variants, 10)
+        rows = [full] + variants
+        cases.append(('create', enc_rows(rows), 'full', t))
+        if rng.random() < 0.5:
+            cases.append(('infer', enc_rows(rows), 'full'))
+        more = [full] + [gen_value(rng, t, False, 0.3, 0, respect=False) for _ in range(rng.randint(1, 3))]
+        cases.append(('create', enc_rows(more), 'full', t))
+        sparse = [gen_value(rng, t, False, 0.35, 0, respect=False) for _ in range(rng.randint(1, 4))]
+        cases.append(('create' if rng.random() < 0.5 else 'infer', enc_rows(sparse), 'sparse', t))
+    # -- explicit schema: valid rows with nulls at every nullable position, then single-position damages
+    if not null_ok(t):
+        return cases
+    full = gen_value(rng, t, False, 0.0, 1)
+    variants = [rb(None) for rb, _, nn, x, is_key in list(positions(t, full, False))[1:] if nn and x is not None]
+    if len(variants) > 10:
+        variants = rng.sample(variants, 10)
+    cases.append(('create_s', t, enc_rows([full] + variants), 'valid'))
+    rnd = [gen_value(rng, t, False, 0.3, 0) for _ in range(rng.randint(1, 3))]
+    if rng.random() < 0.3:
+        rnd = [tuple(r) for r in rnd]
+    cases.append(('create_s', t, enc_rows(rnd), 'valid'))
+    bad = corruptions(rng, t, full, False)[0:0] + [c for c in corruptions(rng, t, full, False)]
+    bad = [c for c in bad if isinstance(c[1], (T.Row, tuple))]        # top-level rows stay rows
+    for label, row in (bad if len(bad) <= 6 else rng.sample(bad, 6)):
+        rows = [row] if rng.random() < 0.5 else [full, row]
+        cases.append(('create_s', t, enc_rows(rows), label))
+    return cases
+
+
+def verify_cases(rng, t, quick):
+    cases = []
+    if not null_ok(t):
+        return cases
+    for struct_as in ('Row', 'tuple', 'dict'):
+        nullable = rng.random() < 0.5 or t == 'null'
+        v = gen_value(rng, t, nullable, 0.25, 0, struct_as=struct_as)
+        cases.append(('verify', t, nullable, enc_val(v), 'valid'))
+        if tname(t) != 'struct' and not has_leaf(t, 'struct'):
+            break
+    cases.append(('verify', t, True, None, 'valid'))
+    if t == 'null':
+        return cases
+    full = gen_value(rng, t, False, 0.0, 1)
+    bad = corruptions(rng, t, full, False)
+    for label, v in (bad if len(bad) <= 8 else rng.sample(bad, 8)):
+        cases.append(('verify', t, False, enc_val(v), label))
+    return cases
+
+
+def row_cases(rng, n):
+    cases = [('row', enc_val(T.create_row([], []))), ('row', enc_val(T.create_row(['a', 'a'], [1, 2]))),
+             ('row', enc_val(T.create_row(['a', 'b', 'a'], [1, [T.create_row(['x'], [None])], 3]))),
+             ('row', enc_val(T.Row(name='Alice', age=11))),
+             ('row', enc_val(T.Row(key=1, value=T.Row(name='a', age=2)))),
+             ('row', enc_val(T.create_row(['t', 'b', 'd'], [(1, T.create_row(['q'], [2])), b'raw',
+                                                          {'k': [T.create_row(['z'], [{'m': T.create_row(['w'], [1])}])]}]))),
+             ('row', enc_val(T.create_row(['a', 'b'], [1])))]
+    for _ in range(n):
+        t = rand_row_tree(rng, rng.choice([2, 3, 4]), with_null=True)
+        cases.append(('row', enc_val(gen_value(rng, t, False, 0.2, 0, respect=False))))
+    return cases
+
+
+def merge_cases(rng, trees, n):
+    cases = []
+    for _ in range(n):
+        t = rng.choice(trees)
+        r = rng.random()
+        if r < 0.6:
+            cases.append(('merge', erase(rng, t), erase(rng, t)))
+        elif r < 0.8:
+            cases.append(('merge', t, rng.choice(trees)))
+        else:
+            a = rand_tree(rng, 2, struct_bias=0.8)
+            b = rand_tree(rng, 2, struct_bias=0.8)
+            cases.append(('merge', a, b))
+    return cases
+
+
 def generate(rng, tier):
     quick = tier == 'quick'
     cases = []
@@ -359,20 +925,20 @@ def generate(rng, tier):
     d1 = depth1()
     cases.extend(('json', e) for e in d1)
     d2 = depth2(d1)
-    cases.extend(('json', e) for e in (d2 if not quick else rng.sample(d2, 700)))
-    for _ in range(300 if quick else 4000):
+    cases.extend(('json', e) for e in (d2 if not quick else rng.sample(d2, 600)))
+    for _ in range(250 if quick else 4000):
         cases.append(('json', rand_tree(rng, 3)))
-    for _ in range(60 if quick else 600):
+    for _ in range(50 if quick else 600):
         cases.append(('json', rand_tree(rng, rng.choice([4, 5, 6]))))
     # ---- the parser on damaged descriptions and on the decimal(p,s) string forms
-    cases.extend(decimal_string_cases(rng, 150 if quick else 2000))
+    cases.extend(decimal_string_cases(rng, 120 if quick else 2000))
     for s in BAD_TYPE_STRINGS + ATOM_NAMES:
         cases.append(('parse', s, None, 'type-string'))
     for s in SCALARS:
         cases.append(('parse', s, None, 'scalar'))
     pool = d1 + (rng.sample(d2, 300) if quick else d2[::3])
     n = 0
-    want = 500 if quick else 6000
+    want = 400 if quick else 6000
     while n < want:
         e = rng.choice(pool) if rng.random() < 0.6 else rand_tree(rng, 3, struct_bias=0.6)
         j = enc_json(build_type(e).jsonValue())
@@ -381,6 +947,20 @@ def generate(rng, tier):
             continue
         cases.append(('parse', d[0], None, d[1]))
         n += 1
+    # ---- rows: every leaf and every depth-1 tree as a column (depth-2 rows), depth-2 columns sampled / all, deeper sampled
+    cols = [e for e in LEAVES + d1 if valuable(e)]
+    d2v = [e for e in d2 if valuable(e)]
+    cols_used = cols if not quick else LEAVES + rng.sample([e for e in cols if e not in LEAVES], 60)
+    cols_used = cols_used + (rng.sample(d2v, 40) if quick else rng.sample(d2v, 1500))
+    trees = [row_tree(rng, e) for e in cols_used]
+    trees += [rand_row_tree(rng, rng.choice([2, 3, 3, 4]), with_null=rng.random() < 0.1) for _ in range(60 if quick else 1500)]
+    for t in trees:
+        cases.extend(rows_cases(rng, t, quick))
+    vt = [e for e in cols_used] + [rand_row_tree(rng, 3, with_null=rng.random() < 0.2) for _ in range(40 if quick else 800)]
+    for t in (vt if not quick else rng.sample(vt, 120)):
+        cases.extend(verify_cases(rng, t, quick))
+    cases.extend(row_cases(rng, 80 if quick else 1500))
+    cases.extend(merge_cases(rng, trees + d1[:50], 150 if quick else 3000))
     return cases
 
 
